@@ -88,8 +88,8 @@ def gen_case(r, k, same=None, long_=False):
     # applyBias switched at run time (cv bias a set apply_force 0|1) before some steps
     c["toggle"] = r.random() < 0.2
     # timeStepFactor k > 1 on the bias and its variables (only allowed with same-step total forces): they are
-    # awake at the steps that are multiples of k.  ORACLE ONLY: the Coq model has no timeStepFactor, these cases
-    # are not compared with it.  No restraint (its own timeStepFactor would be 1) and no run-time switching.
+    # awake at the steps that are multiples of k (model: abf_mstep).  No restraint (its own timeStepFactor would be 1)
+    # and no run-time switching.
     c["tsf"] = r.choice([2, 3]) if (same and r.random() < 0.12) else 1
     if c["tsf"] > 1:
         c["toggle"] = False
@@ -429,7 +429,7 @@ def model_case(c, im=None):
     for v in vs:
         nt *= v["nx"]
     parts += [str(int(bool(c.get("scaled"))))] + [V.hexf(x) for x in (c["sfac"] if c.get("scaled") else [1.0] * nt)]
-    parts += [str(len(c.get("pre", [])))]
+    parts += [str(c.get("tsf", 1)), str(len(c.get("pre", [])))]
     parts += [str(len(inputs_of(c)))]
     for ds in inputs_of(c):
         parts += [str(x) for x in ds["cnt"]] + [V.hexf(g) for g in ds["grad"]]
@@ -1151,8 +1151,7 @@ SHOWN = ("bin", "fbin", "cf", "tf", "af", "cnt", "sum", "go")
 
 def tie_case(run, c, im, mline):
     """implementation vs model, step by step, every field bit-exact"""
-    if c.get("tsf", 1) > 1:
-        return      # timeStepFactor is not in the model: these cases are judged by the oracle alone
+    # timeStepFactor > 1: the driver runs abf_mstep (awake / asleep steps)
     steps_i = im["steps"]
     msteps, spec = parse_model(mline) if mline is not None else ([], None)
     if len(msteps) != len(steps_i):
@@ -1265,7 +1264,7 @@ def check(run):
         for stp in c["steps"]:
             if stp.get("event"):
                 run.dist("state_%s_%s" % (stp["event"]["kind"], stp["event"]["fmt"]))
-        run.dist("timeStepFactor>1 (oracle only)", 1 if c.get("tsf", 1) > 1 else 0)
+        run.dist("timeStepFactor>1", 1 if c.get("tsf", 1) > 1 else 0)
         if im.get("state") is not None:
             nstate += 1
         # property oracle on the implementation alone
